@@ -6,7 +6,7 @@
 (* The Compiler machine is stepped over the program's declarations (one    *)
 (* TLC state per grammar action); then each observation is decided.        *)
 (***************************************************************************)
-EXTENDS Compiler, Json, IOUtils
+EXTENDS Compiler, TextPos, Json, IOUtils
 
 Batch == JsonDeserialize(IOEnv.TRACE_FILE)
 Traces == Batch.traces
@@ -48,6 +48,36 @@ FieldRows(d) == [x \in 1..Len(d.fields) |-> << d.fields[x].name, d.fields[x].num
 RefSet == {<< cs.refs[x].file, cs.refs[x].line, cs.refs[x].path, cs.refs[x].dfile, cs.refs[x].dline >> :
              x \in 1..Len(cs.refs)}
 
+(* --- lint expectations, computed from the program's flat declarations --- *)
+FileIdx(f) == CHOOSE x \in 1..Len(tr.files) : tr.files[x].name = f
+FileLayout(f) == tr.files[FileIdx(f)].layout
+WarnClass(k) ==
+    CASE k = "alias" -> "AliasNameNotPascal" [] k = "const" -> "ConstantNameNotUpper"
+      [] k = "openEnum" -> "EnumNameNotPascal" [] k = "efield" -> "EnumFieldNameNotUpper"
+      [] k = "openMsg" -> "MessageNameNotPascal" [] k = "field" -> "MessageFieldNameNotSnake"
+      [] OTHER -> "none"
+(* does the enum opened at position x of decls have a member with value 0? *)
+EnumHasZero(ds, x) ==
+    LET RECURSIVE Scan(_)
+        Scan(y) == IF y > Len(ds) \/ ds[y].d = "closeEnum" THEN FALSE
+                   ELSE IF ds[y].d = "efield" /\ ds[y].bits = <<>> THEN TRUE ELSE Scan(y + 1)
+    IN  Scan(x + 1)
+WarnsOfFile(fx, style) ==
+    LET ds == tr.files[fx].decls
+    IN  {<< tr.files[fx].name, WarnClass(ds[x].d), ds[x].line >> :
+            x \in {y \in 1..Len(ds) : WarnClass(ds[y].d) # "none" /\ ds[y].style = style}}
+NoZeroOfFile(fx, want) ==
+    LET ds == tr.files[fx].decls
+    IN  {<< tr.files[fx].name, "EnumHasNoFieldValue0", ds[x].line >> :
+            x \in {y \in 1..Len(ds) : ds[y].d = "openEnum" /\ EnumHasZero(ds, y) = want}}
+(* warnings are printed for the definitions of the MAIN file only (bound to the proto) *)
+ExpectedWarnings == WarnsOfFile(tr.main, "bad") \cup NoZeroOfFile(tr.main, FALSE)
+ForbiddenWarnings ==
+    WarnsOfFile(tr.main, "ok") \cup NoZeroOfFile(tr.main, TRUE)
+    \cup (IF tr.files[tr.main].indent_ok
+          THEN {<< tr.files[tr.main].name, "IndentWarning", ln >> : ln \in 1..Len(tr.files[tr.main].layout)}
+          ELSE {})
+
 Check(e) ==
     CASE e.ev = "Outcome" ->
             IF cs.status = "rejected" /\ cs.err.kind = "out-of-model" THEN "skip:out-of-model"
@@ -66,6 +96,33 @@ Check(e) ==
                  ELSE IF cs.err.l1 > 0 /\ ~(e.line >= cs.err.l1 /\ e.line <= cs.err.l2)
                       THEN "wrong-line:" \o cs.err.kind
                  ELSE ""
+      [] e.ev = "Pos" ->
+            \* the recorded line, column and indent of a definition's name (C20)
+            With(DefIn(e.file, e.path), LAMBDA d :
+                IF d.k = "none" THEN "no-such-definition"
+                ELSE IF d.line # e.line THEN "definition-line"
+                ELSE With(FileLayout(e.file)[d.line], LAMBDA toks :
+                        IF WordCol(toks, e.word) # e.col THEN "definition-column"
+                        ELSE IF e.indent # -99 /\ Indent(toks, d.line) # e.indent THEN "definition-indent"
+                        ELSE ""))
+      [] e.ev = "RefPos" ->
+            IF WordCol(FileLayout(e.file)[e.line], e.word) # e.col THEN "reference-column" ELSE ""
+      [] e.ev = "Warnings" ->
+            \* lint: every clearly violating name and every enum without a zero member is
+            \* warned about on its line; nothing conforming is warned about
+            With({<< e.list[x][1], e.list[x][2], e.list[x][3] >> : x \in 1..Len(e.list)}, LAMBDA W :
+                IF \E x \in ExpectedWarnings : x \notin W THEN "warning-missing"
+                ELSE IF \E w \in W : w \in ForbiddenWarnings THEN "warning-on-conforming-definition"
+                ELSE "")
+      [] e.ev = "CheckOnly" ->
+            \* check-only mode exits non-zero exactly when there is an error or a warning
+            IF (e.exit # 0) # (e.nerr > 0 \/ e.nwarn > 0) THEN "check-only-exit"
+            ELSE IF (e.nerr > 0) # (cs.status = "rejected") /\ cs.err.kind # "out-of-model" /\ ~amb
+                 THEN "check-only-error-vs-verdict"
+            ELSE IF e.traceback THEN "traceback" ELSE ""
+      [] e.ev = "LintNoEffect" ->
+            IF e.exit_quiet # e.exit_lint THEN "lint-changes-exit"
+            ELSE IF ~e.same_outputs THEN "lint-changes-output" ELSE ""
       [] e.ev = "OutcomeType" ->
             \* C09 outcome typing: a schema, a parser error, or an OS error -- nothing else
             IF e.outcome \in {"accepted", "rejected", "oserror"} THEN ""
